@@ -414,6 +414,9 @@ impl<'a> LTr<'a> {
 
     /// `place := v`
     fn store(&mut self, p: &Place, v: String) -> R<()> {
+        if p.root.starts_with('(') {
+            return Err("assignment through a Cow".into());
+        }
         if p.fields.is_empty() {
             self.emit(format!("{} := {v}", p.root));
         } else {
@@ -458,6 +461,10 @@ impl<'a> LTr<'a> {
                     Member::Unnamed(i) if matches!(&p.ty, LTy::Adt(n, _) if self.lreg.structs.contains_key(n)) => format!("_{}", i.index),
                     _ => return Err("tuple field".into()),
                 };
+                if let LTy::Cow(inner) = &p.ty {
+                    // a field behind a `Cow`: auto-deref (`&*cow`), read-only
+                    p = Place { root: format!("(Rs.Cow.get {})", p.term()), fields: vec![], ty: (**inner).clone() };
+                }
                 p.ty = self.field_ty(&p.ty, &name);
                 p.fields.push(name);
                 Ok(p)
